@@ -346,6 +346,10 @@ def main(ctx):
         proof_ok, log = ctx.build_props('C08/Props.v', extra_targets=['C08/Corr.vo'])
         if not proof_ok:
             ctx.notes['build_log_tail'] = log[-1500:]
+        elif ctx.tier == 'thorough' and hasattr(ctx, 'coqchk'):
+            if not ctx.coqchk('C08/Props.v'):
+                proof_ok = False
+                ctx.notes['coqchk_failed'] = True
     else:
         for n in lib.theorem_names(lib.COQ / 'C08' / 'Props.v'):
             ctx.obligations.append({'name': n, 'discharged': False, 'assumptions': [],
